@@ -101,8 +101,10 @@ func (r *Replayer) runQuery(k int, c *Concrete, q *Query) {
 	case "byhash":
 		var id int
 		var exp struct {
-			Ok  *int `json:"ok"`
-			Err *int `json:"err"`
+			Ok  *int   `json:"ok"`
+			St  string `json:"st"`
+			Ht  int    `json:"ht"`
+			Err *int   `json:"err"`
 		}
 		_ = json.Unmarshal(q.A, &id)
 		_ = json.Unmarshal(q.R, &exp)
@@ -111,6 +113,11 @@ func (r *Replayer) runQuery(k int, c *Concrete, q *Query) {
 			if exp.Ok != nil {
 				if code != 200 || !strings.Contains(string(body), `"hash":"`+c.HashOf(id)+`"`) {
 					fail("200 "+c.HashOf(id), fmt.Sprintf("%d %s", code, body))
+				} else if strings.HasSuffix(path, "state/") {
+					var sj stateJSON
+					if json.Unmarshal(body, &sj) != nil || sj.State != stName[exp.St] || sj.Height != exp.Ht {
+						fail(fmt.Sprintf("state %s height %d", stName[exp.St], exp.Ht), string(body))
+					}
 				}
 			} else if code != 404 || !structured4xx(code, body) {
 				fail("404 structured", fmt.Sprintf("%d %s", code, body))
